@@ -1465,8 +1465,11 @@ async fn build_layout(l: &Layout) -> PlanStore {
         pers.flush().await.expect("fault-free flush");
         if l.ckpt > 0 && i + 1 == l.ckpt {
             let mm = ManifestManager::new(store.clone(), PFX);
-            let cm = CheckpointManager::with_time_source(Arc::new(store.clone()), PFX.into(), mm.clone(), CheckpointConfig::test(), ManualTime(0));
-            let r = cm.create_checkpoint(folded.clone().into_iter().collect(), i as u64).await.expect("checkpoint");
+            // the checkpoint is stamped by the clock the layout runs under (wall-clock milliseconds with the production clock)
+            let r = match l.clock {
+                Clock::Manual { .. } => CheckpointManager::with_time_source(Arc::new(store.clone()), PFX.into(), mm.clone(), CheckpointConfig::test(), ManualTime(0)).create_checkpoint(folded.clone().into_iter().collect(), i as u64).await.expect("checkpoint"),
+                _ => CheckpointManager::with_time_source(Arc::new(store.clone()), PFX.into(), mm.clone(), CheckpointConfig::test(), ProductionTimeSource::new()).create_checkpoint(folded.clone().into_iter().collect(), i as u64).await.expect("checkpoint"),
+            };
             let mut m = mm.load().await.expect("manifest");
             m.compact_segments(CheckpointInfo { key: r.key, timestamp_ms: r.timestamp_ms, key_count: r.key_count, last_segment_id: r.last_segment_id });
             mm.save(&m).await.expect("manifest save");
